@@ -197,7 +197,12 @@ static void fill_fresh(unsigned char *p, size_t n)
     case FILL_00: memset(p, 0x00, n); break;
     case FILL_FF: memset(p, 0xFF, n); break;
     case FILL_A5: memset(p, 0xA5, n); break;
-    case FILL_RANDOM: for (size_t i = 0; i < n; i++) p[i] = (unsigned char)rng_u64(&grng); break;
+    case FILL_RANDOM: {
+        size_t i = 0;
+        for (; i + 8 <= n; i += 8) { uint64_t v = rng_u64(&grng); memcpy(p + i, &v, 8); }
+        if (i < n) { uint64_t v = rng_u64(&grng); memcpy(p + i, &v, n - i); }
+        break;
+    }
     case FILL_PTR: {
         /* looks like a pointer into poisoned/dead arena space (page 0 of the compact arena is never handed out) */
         uintptr_t bogus = ARENA_BASE + 64 + 8 * rng_below(&grng, 256);
